@@ -1797,4 +1797,80 @@ example : StepOK { od := exOD1, dcf := true, dest := .file c!"device.dcf", nodeI
     cases hp
     exact Or.inr (by decide)
 
+/-! ## T export_import_nodeid -/
+
+theorem addListed_nodeId (dcf : Bool) (od : OD) : ∀ (l : List Nat) (acc : OD),
+    (addListed dcf od l acc).nodeId = acc.nodeId := by
+  intro l
+  induction l with
+  | nil => intro acc; rfl
+  | cons i r ih =>
+    intro acc
+    show (addListed dcf od r (match od.byIndex i with
+                              | some o => acc.addObject (objAfterRoundTrip dcf o)
+                              | none => acc)).nodeId = acc.nodeId
+    rw [ih]
+    cases od.byIndex i <;> rfl
+
+theorem addDummyIf_nodeId (b : Bool) (i : Nat) (od : OD) : (addDummyIf b i od).nodeId = od.nodeId := by
+  cases b <;> rfl
+
+theorem addDummies_nodeId (f : SDummy) (od : OD) : (addDummies f od).nodeId = od.nodeId := by
+  simp only [addDummies, addDummyIf_nodeId]
+
+theorem backOf_nodeId (od : OD) (dcf : Bool) (arg : Option Int) :
+    (backOf od dcf arg).nodeId = if commWritten od dcf then arg else none := by
+  simp only [backOf, addListed_nodeId, addDummies_nodeId]
+
+/-- **Node id of a DCF, read from the file.**  For a dictionary of the property's domain with a node id
+    `n ≠ 0` (every valid id 1 … 127 — the largest one included — and beyond), the exported DCF carries
+    that node id: importing it *without* an explicit node id gives the same dictionary as importing it
+    under `n`, and that dictionary's node id is `n`. -/
+theorem export_import_nodeid (od : OD) (n : Int) (hn : od.nodeId = some n) (hn0 : n ≠ 0)
+    (hod : ODOK (some n) od)
+    (hnames : ListedNamesOK od (od.iter.filter fun i => isMandatory i || isOptional i || isManufacturer i))
+    (hnd : od.iter.Nodup) :
+    ∃ d, exportDoc od true = some d ∧ importEds d none = some (backOf od true (some n)) ∧
+      (backOf od true (some n)).nodeId = some n := by
+  obtain ⟨d, hd, hi⟩ := export_import od true (some n) hod hnames hnd (Or.inl rfl)
+  have htn : truthyInt od.nodeId = some n := by simp [truthyInt, hn, hn0]
+  have hcw : commWritten od true := ⟨rfl, Or.inr (by simp [htn])⟩
+  refine ⟨d, hd, ?_, by rw [backOf_nodeId, if_pos hcw]⟩
+  -- the section `[DeviceComissioning]` of the exported document
+  have hd0 := hd
+  unfold exportDoc at hd
+  cases hs : exportSections od true with
+  | none => rw [hs] at hd; exact absurd hd (by simp)
+  | some secs =>
+    rw [hs] at hd
+    simp only [] at hd
+    split at hd
+    · simp only [Option.some.injEq] at hd
+      subst hd
+      obtain ⟨a, b, c, _, _, _, hshape⟩ := exportSections_shape od true secs hs
+      have hsecC : Doc.sec secs sDeviceComissioning = some ⟨sDeviceComissioning, commissioningOptsX od⟩ := by
+        rw [hshape]
+        have hn1 : ¬ (sDeviceInfo = sDeviceComissioning) := by decide
+        have hcond : (true = true) ∧ ((truthyInt od.bitrate).isSome = true ∨ (truthyInt od.nodeId).isSome = true) := hcw
+        simp [exportHeader, Doc.sec, hn1, hcond]
+      have h1 := export_commissioning_import secs sDeviceComissioning od none hsecC hod.bitrate
+      have h2 := export_commissioning_import secs sDeviceComissioning od (some n) hsecC hod.bitrate
+      have hsame : importCommissioning secs none = importCommissioning secs (some n) := by
+        rw [h1, h2, htn]; rfl
+      have : importEds secs none = importEds secs (some n) := by
+        unfold importEds
+        rw [hsame]
+      rw [this]
+      exact hi
+    · exact absurd hd (by simp)
+
+/-- node id 127, no bit rate: the `NodeID` line is what carries it -/
+def exOD127 : OD := ({ nodeId := some 127 } : OD).addObject
+  (.var { name := c!"COB-ID", index := 0x1400, subindex := 0, dataType := 7, accessType := c!"rw",
+          default := some (.int 0x27F), relative := true, defaultRaw := some c!"$NODEID+0x200" })
+
+example : ((roundTrip exOD127 true none).bind (·.2)).map (fun od => (od.nodeId,
+      (od.byIndex 0x1400).map fun o => match o with | .var v => v.default | _ => none))
+    = some (some 127, some (some (.int 0x27F))) := by decide +kernel
+
 end Canopen.C14
